@@ -78,7 +78,8 @@ var errRet = errors.New("verif-return-mismatch")
 
 func newLinkWorld() *linkScenario {
 	sc := &linkScenario{}
-	sc.A = world.NewStore(&world.Spec{EntityType: "as", BasePath: []string{"root"}, Fields: []world.Field{{Name: "label", Kind: world.KString}}})
+	// the field `bs` is the link collection seen from the entity: persisting it goes through PersistContext.SetLinkedIds
+	sc.A = world.NewStore(&world.Spec{EntityType: "as", BasePath: []string{"root"}, Fields: []world.Field{{Name: "label", Kind: world.KString}, {Name: "bs", Kind: world.KLinks}}})
 	sc.B = world.NewStore(&world.Spec{EntityType: "bs", BasePath: []string{"root"}, Fields: []world.Field{{Name: "label", Kind: world.KString}}})
 	sc.A.AddScalarSymbols()
 	sc.B.AddScalarSymbols()
@@ -245,7 +246,43 @@ func (sc *linkScenario) buildOps() {
 							}
 							return []string{"ok"}
 						},
-					}, explore.Op{
+					})
+					if sd.name == "A" {
+						// the same through the entity: Update with the links field (full update, patch selecting it, patch not selecting it)
+						for _, chk := range []string{"", "bs", "label"} {
+							chk := chk
+							var checker boltz.FieldChecker
+							if chk != "" {
+								checker = boltz.MapFieldChecker{chk: struct{}{}}
+							}
+							sc.ops = append(sc.ops, explore.Op{
+								Name: fmt.Sprintf("A.Update(%s,links=%v)[checker=%s]", id, keys, chk),
+								Do: func(ctx boltz.MutateContext) error {
+									return sc.A.Update(ctx, world.NewRec("as", id).With("label", "L").With("bs", append([]string{}, keys...)), checker)
+								},
+								Apply: func(mm explore.Model) []string {
+									m := mm.(*linkModel)
+									if !sd.present(m, id) {
+										return []string{"notfound"}
+									}
+									if chk == "label" {
+										return []string{"ok"}
+									}
+									if !allExist(m) {
+										return []string{"notfound"}
+									}
+									for _, o := range sd.others {
+										delete(m.links, sd.key(id, o))
+									}
+									for _, k := range keys {
+										m.links[sd.key(id, k)] = true
+									}
+									return []string{"ok"}
+								},
+							})
+						}
+					}
+					sc.ops = append(sc.ops, explore.Op{
 						Name: fmt.Sprintf("%s.SetLinks(%s,%v)", sd.name, id, keys),
 						Do: func(ctx boltz.MutateContext) error {
 							return sd.lc.SetLinks(ctx.Tx(), id, append([]string{}, keys...))
@@ -453,6 +490,14 @@ func (sc *linkScenario) Invariant(tx *bbolt.Tx, mm explore.Model) error {
 				wl := m.links[sd.key(id, o)]
 				if gl := sd.lc.IsLinked(tx, []byte(id), []byte(o)); gl != wl {
 					return fmt.Errorf("%s.IsLinked(%s,%s) = %v, model says %v", sd.name, id, o, gl, wl)
+				}
+				// the same through the store's generic related-entity API
+				linkField := map[string]string{"A": "bs", "B": "as"}[sd.name]
+				if gl := sd.store.IsEntityRelated(tx, id, linkField, o); gl != wl {
+					return fmt.Errorf("%s store.IsEntityRelated(%s,%s,%s) = %v, model says %v", sd.name, id, linkField, o, gl, wl)
+				}
+				if rel := sd.store.GetRelatedEntitiesIdList(tx, id, linkField); strings.Join(rel, ",") != strings.Join(want, ",") {
+					return fmt.Errorf("%s store.GetRelatedEntitiesIdList(%s,%s) = %v, model says %v", sd.name, id, linkField, rel, want)
 				}
 				wc := m.rc[sd.key(id, o)]
 				c1, c2 := sd.rc.GetLinkCounts(tx, []byte(id), []byte(o))
